@@ -450,4 +450,234 @@ example : ∃ (r : Fin 3 → V3 ℝ) (σ : Fin 3 → Fin 3) (w : Fin 3 → ℝ),
 
 end mean
 
+section round4
+open Matrix
+
+/-! ## histories: an attitude state driven through a list of increments -/
+
+/-- every state of a history started at a unit quaternion is a unit quaternion (induction over the list of increments) -/
+theorem chain_unit (q : Q ℝ) (hq : q.normSq = 1) (rs : List (V3 ℝ)) :
+    (sumChain q rs).normSq = 1 ∧ ∀ p ∈ sumTrace q rs, p.normSq = 1 := by
+  refine ⟨?_, sumTrace_unit q hq rs⟩
+  rw [sumChain_eq_prod, normSq_mul, expProd_normSq, hq, mul_one]
+
+/-- the state after a history is the product of the exponentials (latest on the left) times the initial state:
+    the left convention through a whole history -/
+theorem chain_eq_prod (q : Q ℝ) (rs : List (V3 ℝ)) : sumChain q rs = (expProd rs).mul q ∧ (expProd rs).normSq = 1 :=
+  ⟨sumChain_eq_prod q rs, expProd_normSq rs⟩
+
+/-- the recorded trace has one state per increment and ends in the final state -/
+theorem chain_trace (q : Q ℝ) (rs : List (V3 ℝ)) :
+    (sumTrace q rs).length = rs.length ∧ (q :: sumTrace q rs).getLast (List.cons_ne_nil _ _) = sumChain q rs :=
+  ⟨sumTrace_length q rs, sumTrace_last q rs⟩
+
+/-- histories compose -/
+theorem chain_append (q : Q ℝ) (rs ss : List (V3 ℝ)) : sumChain q (rs ++ ss) = sumChain (sumChain q rs) ss :=
+  sumChain_append q rs ss
+
+/-- a history that nets to nothing: the increments followed by their negatives in reverse order give back the
+    initial quaternion EXACTLY — no cut-off error, any lengths, any norms (`exp(-r)` is the conjugate of `exp(r)` in
+    either branch of the exponential) -/
+theorem chain_unwind (q : Q ℝ) (rs : List (V3 ℝ)) : sumChain (sumChain q rs) (rs.reverse.map V3.neg) = q :=
+  sumChain_unwind q rs
+
+/-- the double cover through a history: started at `-q` every history ends at the negative of where it ends from `q` -/
+theorem chain_neg (q : Q ℝ) (rs : List (V3 ℝ)) : sumChain q.neg rs = (sumChain q rs).neg := by
+  rw [sumChain_eq_prod, sumChain_eq_prod, mul_neg']
+
+/-- subtracting the initial state from the final one gives the logarithm of the accumulated rotation, whatever the
+    initial unit quaternion was -/
+theorem diff_chain (q : Q ℝ) (hq : q.normSq = 1) (rs : List (V3 ℝ)) :
+    quatDiff (sumChain q rs) q = quatLog (expProd rs) := by
+  unfold quatDiff
+  rw [sumChain_eq_prod, mul_assoc', mul_conj_self, hq, mul_one']
+
+/-- non-vacuity: a two-step history about different axes whose order matters -/
+example : sumChain (⟨1, 0, 0, 0⟩ : Q ℝ) [⟨1, 0, 0⟩, ⟨0, 1, 0⟩] = (quatExp ⟨0, 1, 0⟩).mul (quatExp ⟨1, 0, 0⟩) := by
+  simp [sumChain, quatSum, mul_one']
+
+/-! ## sum and difference as group operations -/
+
+/-- adding the zero vector changes nothing -/
+theorem sum_zero (q : Q ℝ) : quatSum q ⟨0, 0, 0⟩ = q := by
+  unfold quatSum
+  rw [quatExp_cut _ (by rw [V3.norm_zero]; exact cutoff_pos.le), one_mul']
+
+/-- the difference of a unit quaternion and itself is the zero vector -/
+theorem diff_self (q : Q ℝ) (hq : q.normSq = 1) : quatDiff q q = ⟨0, 0, 0⟩ := by
+  unfold quatDiff
+  rw [mul_conj_self, hq]
+  apply quatLog_cut
+  simp only [Q.vec]; rw [V3.norm_zero]; exact cutoffLog_pos.le
+
+/-- two sums compose by multiplying the exponentials on the left -/
+theorem sum_sum (q : Q ℝ) (r s : V3 ℝ) :
+    quatSum (quatSum q r) s = ((quatExp s).mul (quatExp r)).mul q := by
+  unfold quatSum; rw [mul_assoc']
+
+/-- adding `r` and then `-r` gives back `q` exactly (no cut-off error) -/
+theorem sum_neg_cancel (q : Q ℝ) (r : V3 ℝ) : quatSum (quatSum q r) r.neg = q := quatSum_neg_cancel q r
+
+/-- the difference is antisymmetric: `q ⊖ p = -(p ⊖ q)` — all unit or non-unit operands, either branch -/
+theorem diff_antisymm (p q : Q ℝ) : quatDiff q p = (quatDiff p q).neg := by
+  unfold quatDiff
+  rw [← quatLog_conj, conj_mul, conj_conj]
+
+/-- global-frame (left) convention: sum and difference do not see a common right factor (a change of the body
+    frame): `(p g) ⊖ (q g) = p ⊖ q` for unit `g`, `(q g) ⊕ r = (q ⊕ r) g` -/
+theorem diff_right_invariant (p q g : Q ℝ) (hg : g.normSq = 1) : quatDiff (p.mul g) (q.mul g) = quatDiff p q := by
+  unfold quatDiff
+  rw [conj_mul, mul_assoc', ← mul_assoc' g, mul_conj_self, hg, one_mul']
+
+theorem sum_right_equivariant (q g : Q ℝ) (r : V3 ℝ) : quatSum (q.mul g) r = (quatSum q r).mul g := by
+  unfold quatSum; rw [mul_assoc']
+
+/-- the difference to another reference: `(q ⊕ r) ⊖ p = log(exp r ⊗ (q ⊗ p*))` -/
+theorem diff_sum_other (q p : Q ℝ) (r : V3 ℝ) :
+    quatDiff (quatSum q r) p = quatLog ((quatExp r).mul (q.mul p.conj)) := by
+  unfold quatDiff quatSum; rw [mul_assoc']
+
+/-! ## the round trips with the cut-offs of the code as explicit case splits -/
+
+/-- `exp ∘ log` on the whole unit sphere, both hemispheres: inside the logarithm's cut-off (`‖vec‖ ≤ 5e-5`, then
+    `w² ≥ 1 − 2.5e-9`) the result is the identity quaternion; outside it the result is `q` on the hemisphere `w ≥ 0`
+    and `−q` (the same rotation) on the hemisphere `w < 0` -/
+theorem exp_log_cases (q : Q ℝ) (hq : q.normSq = 1) :
+    (q.vec.norm ≤ cutoffLog → quatExp (quatLog q) = ⟨1, 0, 0, 0⟩ ∧ 1 - cutoffLog ^ 2 ≤ q.w ^ 2) ∧
+    (cutoffLog < q.vec.norm → 0 ≤ q.w → quatExp (quatLog q) = q) ∧
+    (cutoffLog < q.vec.norm → q.w < 0 → quatExp (quatLog q) = q.neg) := by
+  refine ⟨fun h => ⟨?_, ?_⟩, fun h hw => exp_log q hq hw h, fun h hw => exp_log_neg_branch q hq hw h⟩
+  · rw [quatLog_cut q h]
+    exact quatExp_cut _ (by rw [V3.norm_zero]; exact cutoff_pos.le)
+  · have h1 := Q.normSq_eq q
+    rw [hq] at h1
+    have h0 := V3.norm_nonneg q.vec
+    nlinarith [cutoffLog_pos]
+
+/-- `log ∘ exp` for every `‖r‖ < π` with the two cut-offs of the code as explicit cases: inside the exponential's cut-off
+    (`‖r‖ ≤ 1e-4`) the result is `0`; in the sliver where the exponential is regular but the logarithm cuts off
+    (`1e-4 < ‖r‖`, `sin(‖r‖/2) ≤ 5e-5`, hence `‖r‖ ≤ 2 asin 5e-5 < 1.00000001e-4`) the result is `0` as well; everywhere
+    else the result is `r` exactly -/
+theorem log_exp_cases (r : V3 ℝ) (h2 : r.norm < π) :
+    (r.norm ≤ cutoff → quatLog (quatExp r) = ⟨0, 0, 0⟩) ∧
+    (cutoff < r.norm → Real.sin (r.norm / 2) ≤ cutoffLog →
+      quatLog (quatExp r) = ⟨0, 0, 0⟩ ∧ r.norm ≤ 2 * Real.arcsin cutoffLog ∧ r.norm < 1.00000001e-4) ∧
+    (cutoff < r.norm → cutoffLog < Real.sin (r.norm / 2) → quatLog (quatExp r) = r) := by
+  refine ⟨fun h => ?_, fun h hs => ?_, fun h hs => log_exp_exact r h h2 hs⟩
+  · exact (quatLog_quatExp_small r h2 (fun hh => absurd hh.1 (not_lt.mpr h))).1
+  · have hz := (quatLog_quatExp_small r h2 (fun hh => absurd hh.2 (not_lt.mpr hs))).1
+    have hb := small_of_sin_le (V3.norm_nonneg r) h2 hs
+    exact ⟨hz, hb, lt_of_le_of_lt hb two_arcsin_cutoffLog_lt⟩
+
+/-- the sliver is inhabited: the regular branch of the exponential and the cut-off branch of the logarithm do meet
+    (`‖r‖ = 1.0000000002e-4`), so the middle case of `log_exp_cases` is not vacuous -/
+theorem log_exp_sliver_nonempty :
+    ∃ r : V3 ℝ, cutoff < r.norm ∧ r.norm < π ∧ Real.sin (r.norm / 2) ≤ cutoffLog ∧ quatLog (quatExp r) = ⟨0, 0, 0⟩ ∧ r ≠ ⟨0, 0, 0⟩ := by
+  have hn : (⟨1.0000000002e-4, 0, 0⟩ : V3 ℝ).norm = 1.0000000002e-4 := norm_x_axis _ (by norm_num)
+  have hc : cutoff < (⟨1.0000000002e-4, 0, 0⟩ : V3 ℝ).norm := by rw [hn, cutoff_val]; norm_num
+  have hpi : (⟨1.0000000002e-4, 0, 0⟩ : V3 ℝ).norm < π := by rw [hn]; linarith [Real.pi_gt_three]
+  have hs : Real.sin ((⟨1.0000000002e-4, 0, 0⟩ : V3 ℝ).norm / 2) ≤ cutoffLog := by
+    rw [hn, cutoffLog_val]
+    have e : (1.0000000002e-4 : ℝ) / 2 = 5.000000001e-5 := by norm_num
+    rw [e]
+    have hx : |(5.000000001e-5 : ℝ)| ≤ 1 := by rw [abs_of_pos (by norm_num)]; norm_num
+    have hb := (abs_sub_le_iff.1 (Real.sin_bound hx)).1
+    rw [abs_of_pos (by norm_num : (0 : ℝ) < 5.000000001e-5)] at hb
+    have hnum : (5.000000001e-5 : ℝ) - 5.000000001e-5 ^ 3 / 6 + 5.000000001e-5 ^ 5 / 100 ≤ 1 / 20000 := by norm_num
+    linarith
+  exact ⟨_, hc, hpi, hs, ((log_exp_cases _ hpi).2.1 hc hs).1, by intro h; have := congrArg V3.x h; norm_num at this⟩
+
+
+
+/-! ## batches: every column of the batch functions is the single-column function of that column -/
+
+/-- column `j` of each batch function depends on column `j` of the batch argument (and on column 0 of the
+    single-quaternion argument) only: the statements about `quatExp`, `quatLog`, `quatSum`, `quatDiff` hold for every
+    column of batches of any width -/
+theorem batch_columns {m n : Nat} (q : Mat ℝ 4 (m + 1)) (ql : Mat ℝ 4 n) (r : Mat ℝ 3 n) (j : Fin n) :
+    Q.ofCol (expBatch r) j = quatExp (V3.ofCol r j) ∧
+    V3.ofCol (logBatch ql) j = quatLog (Q.ofCol ql j) ∧
+    Q.ofCol (sumBatch q r) j = quatSum (Q.ofCol q 0) (V3.ofCol r j) ∧
+    V3.ofCol (diffBatch ql q) j = quatDiff (Q.ofCol ql j) (Q.ofCol q 0) :=
+  ⟨ofCol_qCols _ j, ofCol_vCols _ j, ofCol_qCols _ j, ofCol_vCols _ j⟩
+
+/-- the property's first sentence on the batch functions themselves, any width: every column of `q ⊕ r` is a unit
+    quaternion and subtracting `q` again gives back the column of `r` within 2e-4 (within `2 asin 5e-5`) -/
+theorem batch_round_trip {m n : Nat} (q : Mat ℝ 4 (m + 1)) (hq : (Q.ofCol q 0).normSq = 1) (r : Mat ℝ 3 n) (j : Fin n)
+    (h : (V3.ofCol r j).norm < π) :
+    (Q.ofCol (sumBatch q r) j).normSq = 1 ∧
+    ((V3.ofCol (diffBatch (sumBatch q r) q) j).sub (V3.ofCol r j)).norm ≤ 2 * Real.arcsin cutoffLog ∧
+    ((V3.ofCol (diffBatch (sumBatch q r) q) j).sub (V3.ofCol r j)).norm ≤ 2e-4 := by
+  have hs := (batch_columns q (sumBatch q r) r j).2.2.1
+  have hd := (batch_columns q (sumBatch q r) r j).2.2.2
+  rw [hd, hs]
+  exact ⟨sum_unit _ hq _, (diff_sum_bound _ hq _ h).1, (diff_sum_bound _ hq _ h).2⟩
+
+/-- only column 0 of the single-quaternion argument is read -/
+theorem batch_reads_column_zero {m m' n : Nat} (q : Mat ℝ 4 (m + 1)) (q' : Mat ℝ 4 (m' + 1)) (ql : Mat ℝ 4 n) (r : Mat ℝ 3 n)
+    (h : Q.ofCol q 0 = Q.ofCol q' 0) : sumBatch q r = sumBatch q' r ∧ diffBatch ql q = diffBatch ql q' := by
+  unfold sumBatch diffBatch; rw [h]; exact ⟨rfl, rfl⟩
+
+/-! ## the known finding made precise: for which weights the centre is the dominant eigenvector, and sharpness -/
+
+/-- The one-axis sigma-point family (centre `1`, sigma points `exp(±(θ,0,0))`, weights `w0, w1, w1`; `θ` above the
+    exponential's cut-off): the matrix is `diag(w0 + 2 w1 cos²(θ/2), 2 w1 sin²(θ/2), 0, 0)` and the quantity of
+    `mean_symmetric_centre_partial` is `w0 + 2 w1 cos θ`, the difference of the first two entries.
+    * positive (and `w1 ≥ 0`): every result meeting the contract is `±` the centre (that theorem);
+    * negative: the centre does NOT meet the contract — no eigen-solver meeting it can return `±` the centre.
+    So the hypothesis `0 < Σ w_i cos‖r_i‖` of `mean_symmetric_centre_partial` cannot be weakened to any condition
+    that admits a negative value: the bound is sharp. -/
+theorem mean_symmetric_centre_gap_sharp (θ w0 w1 : ℝ) (hθ : cutoff < θ) (eig : Mat ℝ 4 4 → Q ℝ) :
+    (∑ i, (Vec.of (wAxis w0 w1) : Vec ℝ 3) i * (2 * (quatExp (rAxis θ i)).w ^ 2 - 1) = w0 + 2 * w1 * Real.cos θ) ∧
+    (0 < w0 + 2 * w1 * Real.cos θ → 0 ≤ w1 →
+      MeanContract eig (Vec.of (wAxis w0 w1)) (qCols (fun i => quatSum ⟨1, 0, 0, 0⟩ (rAxis θ i))) →
+      quatMean eig (Vec.of (wAxis w0 w1)) (qCols (fun i => quatSum ⟨1, 0, 0, 0⟩ (rAxis θ i))) = ⟨1, 0, 0, 0⟩ ∨
+      quatMean eig (Vec.of (wAxis w0 w1)) (qCols (fun i => quatSum ⟨1, 0, 0, 0⟩ (rAxis θ i))) = (⟨1, 0, 0, 0⟩ : Q ℝ).neg) ∧
+    (w0 + 2 * w1 * Real.cos θ < 0 →
+      ¬ IsDominantEigvec (toM (outerMean (Vec.of (wAxis w0 w1)) (qCols (fun i => quatSum ⟨1, 0, 0, 0⟩ (rAxis θ i)))))
+          (⟨1, 0, 0, 0⟩ : Q ℝ).get ∧
+      (MeanContract eig (Vec.of (wAxis w0 w1)) (qCols (fun i => quatSum ⟨1, 0, 0, 0⟩ (rAxis θ i))) →
+        quatMean eig (Vec.of (wAxis w0 w1)) (qCols (fun i => quatSum ⟨1, 0, 0, 0⟩ (rAxis θ i))) ≠ ⟨1, 0, 0, 0⟩ ∧
+        quatMean eig (Vec.of (wAxis w0 w1)) (qCols (fun i => quatSum ⟨1, 0, 0, 0⟩ (rAxis θ i))) ≠ (⟨1, 0, 0, 0⟩ : Q ℝ).neg)) := by
+  have hgapeq : ∑ i, (Vec.of (wAxis w0 w1) : Vec ℝ 3) i * (2 * (quatExp (rAxis θ i)).w ^ 2 - 1)
+      = w0 + 2 * w1 * Real.cos θ := by
+    simp only [Vec.of_apply]; exact axis_gap θ w0 w1 hθ
+  have hσ : Function.Involutive (![0, 2, 1] : Fin 3 → Fin 3) := by
+    intro i; fin_cases i <;> rfl
+  have hcols : colsOf (qCols (fun i => quatSum (⟨1, 0, 0, 0⟩ : Q ℝ) (rAxis θ i)))
+      = fun i => (quatSum ⟨1, 0, 0, 0⟩ (rAxis θ i)).get := by
+    funext i; rw [colsOf_eq, ofCol_qCols]
+  refine ⟨hgapeq, fun hpos hw1 hcon => ?_, fun hneg => ?_⟩
+  · refine (mean_symmetric_centre_partial eig _ _ ⟨1, 0, 0, 0⟩ (rAxis θ) ![0, 2, 1] hσ (by simp [Q.normSq])
+      (fun i => ofCol_qCols _ i) ?_ ?_ ?_ ?_).2 hcon
+    · intro i; fin_cases i <;> simp [rAxis, V3.neg]
+    · intro i; fin_cases i <;> simp [wAxis]
+    · intro i
+      fin_cases i
+      · right
+        show (quatExp (⟨0, 0, 0⟩ : V3 ℝ)).w ^ 2 = 1
+        rw [quatExp_cut _ (by rw [V3.norm_zero]; exact cutoff_pos.le)]; norm_num
+      · left; simpa [wAxis] using hw1
+      · left; simpa [wAxis] using hw1
+    · rw [hgapeq]; exact hpos
+  · have hnd : ¬ IsDominantEigvec (toM (outerMean (Vec.of (wAxis w0 w1)) (qCols (fun i => quatSum ⟨1, 0, 0, 0⟩ (rAxis θ i)))))
+        (⟨1, 0, 0, 0⟩ : Q ℝ).get := by
+      rw [toM_outerMean, hcols]
+      exact axis_not_dominant θ w0 w1 hθ hneg
+    refine ⟨hnd, fun hcon => ⟨fun he => hnd ?_, fun he => hnd ?_⟩⟩
+    · unfold MeanContract at hcon; unfold quatMean at he; rw [he] at hcon; exact hcon
+    · unfold MeanContract at hcon; unfold quatMean at he; rw [he, get_neg] at hcon
+      exact isDominant_of_neg _ _ hcon
+
+/-- non-vacuity of both regimes of `mean_symmetric_centre_gap_sharp`: `θ = 1`, `w1 = 1`: `w0 = 0` gives a positive gap
+    (`2 cos 1 > 0`), `w0 = -2` a negative one -/
+example : cutoff < (1 : ℝ) ∧ 0 < (0 : ℝ) + 2 * 1 * Real.cos 1 ∧ (-2 : ℝ) + 2 * 1 * Real.cos 1 < 0 := by
+  have h1 : 0 < Real.cos 1 := Real.cos_pos_of_mem_Ioo ⟨by linarith [Real.pi_pos], by linarith [Real.pi_gt_three]⟩
+  have h2 : Real.cos 1 < 1 := by
+    have := Real.cos_lt_cos_of_nonneg_of_le_pi_div_two (le_refl (0 : ℝ)) (by linarith [Real.pi_gt_three]) (by norm_num : (0 : ℝ) < 1)
+    simpa using this
+  refine ⟨by rw [cutoff_val]; norm_num, by linarith, by linarith⟩
+
+end round4
+
 end BFL.Quat
